@@ -312,23 +312,26 @@ def oracle(case):
     classes = ["error:" + shape, path]
     if isinstance(error, dict) and "code" in error:
         code = error["code"]
-        if "message" in error:
-            msg = error["message"]
-        else:
-            msg = error.get("trace", "<no error message>")
+        # the statement fixes the message only when the error object has one: without a
+        # "message" member any placeholder text (or the jabsorb "trace") may stand in
+        has_msg = "message" in error
+        msg = error["message"] if has_msg else None
+
+        def msg_ok(got):
+            return got == msg if has_msg else True
         numeric = isinstance(code, (int, float))
         if numeric and -32700 <= code <= -32000:
             if type(exc) is not J.ProtocolError:
                 fail("C06/misclassified-code", "code %r raised %s, expected plain ProtocolError" % (code, type(exc).__name__), reply)
-            if not exc.args or exc.args[0] != (code, msg):
-                fail("C06/wrong-args", "ProtocolError args %r, expected ((%r, %r),)" % (exc.args, code, msg), reply)
+            if not exc.args or not isinstance(exc.args[0], tuple) or len(exc.args[0]) != 2 or exc.args[0][0] != code or not msg_ok(exc.args[0][1]):
+                fail("C06/wrong-args", "ProtocolError args %r, expected ((%r, %r),)" % (exc.args, code, msg if has_msg else "<any text>"), reply)
         else:
             data = error.get("data", None)
             if type(exc) is not J.AppError:
                 fail("C06/misclassified-code", "code %r raised %s, expected AppError" % (code, type(exc).__name__), reply)
             if not exc.args or not isinstance(exc.args[0], tuple) or len(exc.args[0]) != 3 or \
-                    not (gen.strict_eq(gen.norm(exc.args[0][0]), gen.norm(code)) and exc.args[0][1] == msg and exc.args[0][2] == data):
-                fail("C06/wrong-args", "AppError args %r, expected ((%r, %r, %r),)" % (exc.args, code, msg, data), reply)
+                    not (gen.strict_eq(gen.norm(exc.args[0][0]), gen.norm(code)) and msg_ok(exc.args[0][1]) and exc.args[0][2] == data):
+                fail("C06/wrong-args", "AppError args %r, expected ((%r, %r, %r),)" % (exc.args, code, msg if has_msg else "<any text>", data), reply)
             if exc.data() != data:
                 fail("C06/wrong-args", "AppError.data() is %r, expected %r" % (exc.data(), data), reply)
         if numeric and not isinstance(code, bool):
